@@ -9,6 +9,14 @@ git -C /repo worktree add -q --detach $W HEAD || exit 2
 git -C $W apply $D/patch.diff || { git -C /repo worktree remove --force $W; exit 2; }
 for id in "$@"; do
   (cd /verif && VERIF_REPO=$W VERIF_OUT=$O timeout 1800 ./check $id --tier quick > $O.log 2>&1; rc=$?
+   /venv/bin/python - $D/meta.json $id $rc $O.log <<'PY'
+import json,sys,re
+p,cid,rc,log=sys.argv[1:]
+m=json.load(open(p)); keys=re.findall(r"^  key=(\S+)", open(log).read(), re.M)[:5]
+runs=[r for r in (m.get("check_runs") or []) if r["check"]!=cid]+[{"check":cid,"tier":"quick","exit":int(rc),"violation_keys":keys}]
+m["check_runs"]=runs; m["detected_by"]=sorted(r["check"] for r in runs if r["exit"]==1) or None
+json.dump(m,open(p,"w"),indent=1)
+PY
    echo "SEEDRUN $N check=$id exit=$rc violations=$(grep -c '^VIOLATION' $O.log): $(grep -A1 '^VIOLATION' $O.log | grep 'key=' | head -3 | cut -c1-220 | tr '\n' ' ')")
 done
 git -C /repo worktree remove --force $W; rm -rf $O $O.log
